@@ -430,7 +430,7 @@ def log_oracles(recs):
     return bad, known
 
 
-def per_execution(v, name, recs, hdr, sp, lock):
+def per_execution(v, name, recs, hdr, sp, lock, tcfg):
     """Validate every execution of a batch separately: strict; a strict rejection is retried with
     the policy left open (DRIFT if accepted) and confirmed by one re-run before it is reported.
     Returns a summed TlcResult-like object, or None if a violation was recorded."""
@@ -448,7 +448,7 @@ def per_execution(v, name, recs, hdr, sp, lock):
         with open(p, "w") as f:
             for r in ev:
                 f.write(json.dumps(r) + "\n")
-        r1 = validate_trace("IoTrace.tla", "IoTrace.cfg", p, header=hdr, timeout=300, metaname="c14x_%s_%d" % (name, i))
+        r1 = validate_trace("IoTrace.tla", tcfg, p, header=hdr, timeout=300, metaname="c14x_%s_%d" % (name, i))
         tot.distinct += r1.distinct
         tot.generated += r1.generated
         tot.wall += r1.wall
@@ -546,14 +546,15 @@ def run_batch(v, drv, name, sched_text, seed, lock, kf_listed):
                 p = save_replay(PROP, name + ".sched", src=sp)
                 v.violation("cleanup handler before a handler (%s): %s" % (name, known[0]), p)
                 return
+    tcfg = "IoTrace_file.cfg" if "f_" in name else "IoTrace.cfg"
     try:
-        r = validate_trace("IoTrace.tla", "IoTrace.cfg", prepped, header=hdr, timeout=400, metaname="c14tr_" + name)
+        r = validate_trace("IoTrace.tla", tcfg, prepped, header=hdr, timeout=400, metaname="c14tr_" + name)
     except Broken:
         r = None      # timed out: judge the executions one by one
     if r is None or not r.accepted:
         # A rejected execution makes the depth-first search revisit every alternative of the
         # executions before it, so the batch is re-validated execution by execution.
-        st = per_execution(v, name, recs, hdr, sp, lock)
+        st = per_execution(v, name, recs, hdr, sp, lock, tcfg)
         if st is None:
             return
         r = st
@@ -587,7 +588,10 @@ def traces(v, tier, seed):
     pages_opts = [1, 2, 4, 256]
 
     def add(text, pages):
-        batches.setdefault(pages, []).append(text % pages)
+        # regular files run through the disk engine, whose pick / perform pipeline relative to STOP
+        # is not transcribed: their batches are validated with the promptness of STOP left open
+        isfile = text.split()[1] in ("3", "4")
+        batches.setdefault((pages, isfile), []).append(text % pages)
     for i, j in enumerate(tl):
         unit = [1, 1, 700, 3000, 33000][i % 5]
         add(sched_from_tlc(j, rng, unit), pages_opts[i % 4])
@@ -599,13 +603,13 @@ def traces(v, tier, seed):
     for i in range(nrand):
         add(sched_random(rng) if i % 5 else sched_random_conv(rng), pages_opts[rng.randrange(4)])
     for i, dsc in enumerate(DIRECTED):
-        batches[4].insert(0, dsc % 4)
+        batches[(4, False)].insert(0, dsc % 4)
     # split into driver runs of bounded size
     per = 30 if tier == "quick" else 60
     jobs = []
-    for pages, lst in sorted(batches.items()):
+    for (pages, isfile), lst in sorted(batches.items()):
         for k in range(0, len(lst), per):
-            jobs.append(("b%d_%d" % (pages, k // per), "\n".join(lst[k:k + per])))
+            jobs.append(("b%d%s_%d" % (pages, "f" if isfile else "", k // per), "\n".join(lst[k:k + per])))
     v.notes["executions_planned"] = sum(len(x) for x in batches.values())
     lock = threading.Lock()
     broken = []
